@@ -30,4 +30,45 @@ align_names = Unit(
     attrs={"name": "str", "id": "str"}, lenient=True, props=("C07", "C08", "C19"), covers=False, fall_is_return=True,
 )
 
-UNITS = [delete_unused, align_names]
+def slice_underscore_loop(fn):
+    """the loop that replaces unused names by `_` (the later loop removes assignments whose target already is `_`)"""
+    import ast as _ast
+    from pyvc.unit import NotGenerated
+    for st in fn.body:
+        if isinstance(st, _ast.For) and "_iter_unused_names" in _ast.unparse(st.iter):
+            return [st], "underscore-loop"
+    raise NotGenerated("undefine_unused_variables: loop over _iter_unused_names not found")
+
+
+undefine_unused = Unit(
+    "fixes", "undefine_unused_variables", slice=slice_underscore_loop,
+    params={"preserve": ("set", "str"), "root": "obj", "class_body_blacklist": "obj", "yielded": "obj"},
+    yield_ensures=[("a-name-is-replaced-by-underscore-only-if-it-is-not-preserved", "value[0].id not in preserve")],
+    loops={0: {"inv": ["True"]}},
+    attrs={"name": "str", "id": "str"}, lenient=True, props=("C07", "C08", "C19"), covers=False, fall_is_return=True,
+)
+undefine_unused.key_suffix = "underscore-loop"
+
+
+def slice_duplicates_loop(fn):
+    """the loop over groups of equivalent functions that fills `delete` / `renamings`"""
+    import ast as _ast
+    for st in fn.body:
+        if isinstance(st, _ast.For) and "function_defs.values()" in _ast.unparse(st.iter):
+            return [st], "duplicate-groups"
+    from pyvc.unit import NotGenerated
+    raise NotGenerated("remove_duplicate_functions: loop over function_defs.values() not found")
+
+
+remove_duplicates = Unit(
+    "fixes", "remove_duplicate_functions", slice=slice_duplicates_loop,
+    params={"preserve": ("set", "str"), "function_defs": "obj", "delete": ("set", "obj"), "renamings": "obj", "definitions": "obj", "fixed_names": "obj", "assigned_names": "obj"},
+    requires=[("nothing-marked-yet", "forall_obj(lambda d: d not in delete)")],
+    ensures=[("a-deleted-duplicate-is-not-preserved", "forall_obj(lambda d: implies(d in delete, d.name not in preserve))")],
+    loops={0: {"inv": ["forall_obj(lambda d: implies(d in delete, d.name not in preserve))"]},
+           1: {"inv": ["forall_obj(lambda d: implies(d in delete, d.name not in preserve))"]}},
+    attrs={"name": "str", "lineno": "int"}, lenient=True, props=("C07", "C08", "C19"), covers=False,
+    note="the set difference `funcdefs - preserved_nodes` is abstracted (lenient): the obligation is discharged from the definition of preserved_nodes only if the executor can carry it; otherwise undecided",
+)
+
+UNITS = [delete_unused, align_names, undefine_unused, remove_duplicates]
